@@ -428,6 +428,7 @@ class DataFrame:
         return _hash
 
     def __iter__(self):
+        self.materialize()
         return iter(self._rows)
 
     def __len__(self) -> int:
